@@ -6,6 +6,7 @@ accessor masks inlined), equals  id != K  ∨  reserved-mask ≠ 0  ∨  word ru
 from oracles/its_words.json; data-word ID set, IB/OB lane maps, lane-active bit
 and connector-input limit equal oracles/dw_ids.json (the u8 identifier domain
 is enumerated by constant folding of the extracted expressions)."""
+from ..mir import show_origin
 from ..thir import Evaluator, Obj, Agg, Sym, Bits, Cond, Slice, ckey, vkey, oracle_cond, Unsupported
 from ..facts import where
 
@@ -262,6 +263,16 @@ def run(ctx, rep):
                   "is_lane_active does not denote bit `lane` of active_lanes for %d of 32 lanes" % (32 - okc))
     else:
         rep.missing("R11.2", ila)
+    # the lanes a data word is checked against are those of the IHW currently held by the status-word container (the
+    # IHW that governs this word — also on a continuation page), read where the word is checked
+    lane_src = []
+    cg, reach = ctx.cg(), ctx.reachable()
+    for path_, bb_, t_, cal_, c_ in cg.call_sites(lambda c__: c__.endswith("IbDataWordValidator::check") or c__.endswith("ObDataWordValidator::check"), within=reach):
+        so_ = show_origin(cg.body(path_).origin(t_["args"][1]))
+        lane_src.append((path_.split("::")[-1], "Ihw::active_lanes(" in so_ and "StatusWordContainer::ihw(" in so_, so_[:120]))
+    rep.check(len(lane_src) >= 2 and all(x[1] for x in lane_src), "R11.2", "R11.2|lanes|current_ihw", "data words are checked against the active lanes of the current IHW (%d call sites)" % len(lane_src),
+              "fastpasta/src/analyze/validators/its/cdp_running.rs",
+              "the active-lanes argument of a data-word check is not read from the status-word container's current IHW: %s" % [(x[0], x[2]) for x in lane_src if not x[1]])
     ihw_al = W + "ihw::Ihw::active_lanes"
     # OB lane table
     obl = "fastpasta::words::its::data_words::ob_data_word_id_to_lane"
